@@ -36,7 +36,7 @@ class C09(Check):
             'traces_validated = real counts whose every step was a model transition and satisfied the seat invariants. '
             'non-trivial = counts with a transfer / non-epilogue exclusion / >1 round')
     assumptions = ['bounded election sizes as in C01', 'status is read from the record snapshots (cstate.state / pending)']
-    budget = {'quick': 110, 'thorough': 2400}
+    budget = {'quick': 240, 'thorough': 3000}
 
     def cases(self, tier):
         yield from families.standard(tier)
